@@ -3,6 +3,7 @@ package rules
 import (
 	"fmt"
 	"go/ast"
+	"go/constant"
 	"go/token"
 	"go/types"
 	"sort"
@@ -775,9 +776,60 @@ func c08r4(c *core.Ctx) {
 		}
 		return ""
 	}
+	// statements in execution order; blocks guarded by a test of the observer's event family (the entity events carry no
+	// observed-component aggregates) are transparent, whether written as an early return or as a guarded block
+	isEventTest := func(e ast.Expr) bool {
+		okAll, any := true, false
+		var visit func(x ast.Expr)
+		visit = func(x ast.Expr) {
+			x = ast.Unparen(x)
+			switch y := x.(type) {
+			case *ast.BinaryExpr:
+				switch y.Op.String() {
+				case "&&", "||":
+					visit(y.X)
+					visit(y.Y)
+					return
+				case "==", "!=":
+					if eventConstName(m, y.Y) != "" || eventConstName(m, y.X) != "" {
+						any = true
+						return
+					}
+				}
+			case *ast.UnaryExpr:
+				visit(y.X)
+				return
+			case *ast.Ident:
+				if v, ok := m.Info.ObjectOf(y).(*types.Var); ok && !v.IsField() {
+					if ds := localDefsOf(m, rem, v); len(ds) == 1 {
+						visit(ds[0])
+						return
+					}
+				}
+			}
+			okAll = false
+		}
+		visit(e)
+		return okAll && any
+	}
+	var flat []ast.Stmt
+	var flatten func(list []ast.Stmt)
+	flatten = func(list []ast.Stmt) {
+		for _, st := range list {
+			if is, ok := st.(*ast.IfStmt); ok && is.Init == nil && isEventTest(is.Cond) {
+				flatten(is.Body.List)
+				if eb, ok := is.Else.(*ast.BlockStmt); ok {
+					flatten(eb.List)
+				}
+				continue
+			}
+			flat = append(flat, st)
+		}
+	}
+	flatten(rem.Body.List)
 	// position of the store that shortens observers[evt]
 	var shortened token.Pos
-	for _, st := range rem.Body.List {
+	for _, st := range flat {
 		if as, ok := st.(*ast.AssignStmt); ok && len(as.Lhs) == 1 {
 			if ix, ok := ast.Unparen(as.Lhs[0]).(*ast.IndexExpr); ok && fieldOfSel(ix.X) == "observerManager.observers" {
 				shortened = as.Pos()
@@ -795,7 +847,7 @@ func c08r4(c *core.Ctx) {
 		subject := rem.Name + ": recompute " + pair[1]
 		// top-level statements after the shortening: anyNoX[evt] = false; for range m.observers[evt] {...}; allX[evt] = acc
 		var resetFlag, loopOK, assignAgg bool
-		for _, st := range rem.Body.List {
+		for _, st := range flat {
 			if st.Pos() < shortened {
 				continue
 			}
@@ -858,7 +910,7 @@ func c08r4(c *core.Ctx) {
 	}
 	// hasObservers updated
 	okHas := false
-	for _, st := range rem.Body.List {
+	for _, st := range flat {
 		if as, ok := st.(*ast.AssignStmt); ok && len(as.Lhs) == 1 {
 			if ix, ok := ast.Unparen(as.Lhs[0]).(*ast.IndexExpr); ok && fieldOfSel(ix.X) == "observerManager.hasObservers" {
 				okHas = true
@@ -1022,12 +1074,27 @@ func c08r6(c *core.Ctx) {
 		}
 		s := sig{f: f, evts: map[string]string{}, rel: relParam(f) != nil}
 		rp := relParam(f)
+		inlineDepth := 0
+		constBind := map[*types.Var]bool{}
 		// fire calls with their guards
 		var walk func(list []ast.Stmt, guard string)
 		walk = func(list []ast.Stmt, guard string) {
 			for _, st := range list {
 				switch x := st.(type) {
 				case *ast.IfStmt:
+					// a condition that is a helper parameter bound to a constant at the inlined call: take that branch only
+					if cid, isID := ast.Unparen(x.Cond).(*ast.Ident); isID {
+						if cv, isVar := m.Info.ObjectOf(cid).(*types.Var); isVar {
+							if val, bound := constBind[cv]; bound {
+								if val {
+									walk(x.Body.List, guard)
+								} else if eb, ok := x.Else.(*ast.BlockStmt); ok {
+									walk(eb.List, guard)
+								}
+								continue
+							}
+						}
+					}
 					g := guard
 					cond := m.ExprString(x.Cond)
 					cat := "cond:" + cond
@@ -1080,6 +1147,41 @@ func c08r6(c *core.Ctx) {
 									gg = "always"
 								}
 								s.evts[fc.Event] = gg
+							}
+							// unexported helper method of the same type: its dispatches belong to this emission site
+							if k, cal, _ := m.Callee(call); k == core.CallStatic && cal.Recv == f.Recv && cal.Recv != "" && cal.Obj != nil && !cal.Obj.Exported() && inlineDepth < 2 && !emitByCaller[cal.Name] {
+								inlineDepth++
+								saveRP := rp
+								// the helper's own relation parameter, if the caller passes its relation parameter on
+								if hp := relParamAny(cal); hp != nil {
+									rp = hp
+								}
+								for ai, arg := range call.Args {
+									if ai < cal.Sig.Params().Len() {
+										if tv, ok := m.Info.Types[arg]; ok && tv.Value != nil && tv.Value.Kind() == constant.Bool {
+											constBind[cal.Sig.Params().At(ai)] = constant.BoolVal(tv.Value)
+										}
+									}
+								}
+								walk(cal.Body.List, guard)
+								// batch loops in the helper
+								core.InspectNoLits(cal.Body, func(z ast.Node) bool {
+									if is, ok := z.(*ast.IfStmt); ok {
+										ast.Inspect(is.Cond, func(w ast.Node) bool {
+											if c2, ok := w.(*ast.CallExpr); ok {
+												if fc := a.FireCallOf(cal, c2); fc != nil && fc.Event != "" {
+													if _, have := s.evts[fc.Event]; !have {
+														s.evts[fc.Event] = guardOfNode(m, cal, is, rp)
+													}
+												}
+											}
+											return true
+										})
+									}
+									return true
+								})
+								rp = saveRP
+								inlineDepth--
 							}
 						}
 						return true
@@ -1315,4 +1417,20 @@ func enumeratePaths[S any](m *core.Model, list []ast.Stmt, step func(ast.Stmt, S
 	var zero S
 	rec(list, zero, func(s S) { out = append(out, s) })
 	return out
+}
+
+// relParamAny: a parameter of f that carries relations (variadic or slice of Relation / Entity).
+func relParamAny(f *core.Func) *types.Var {
+	if f.Sig == nil {
+		return nil
+	}
+	for i := 0; i < f.Sig.Params().Len(); i++ {
+		p := f.Sig.Params().At(i)
+		if sl, ok := p.Type().(*types.Slice); ok {
+			if n := core.NamedName(sl.Elem()); n == "Relation" || n == "Entity" {
+				return p
+			}
+		}
+	}
+	return nil
 }
